@@ -327,6 +327,60 @@ theorem hist_read_cursor_le (T : Tables) (hT : tablesOK T = true) (cfg : Cfg) (t
       cases e <;> simp [hc]
   · simpa using hc
 
+/-- **One form at a time = the whole text** (on the history model the driver executes). If the
+    text from the cursor on reads as the objects `code`, then `n` consecutive `(read stream)` calls
+    return the first `n` of these objects, in order, and the eof value for every call after the last
+    object — nothing is lost, repeated or read differently because the text is consumed form by form.
+    (Hypotheses on the tables as for `readOne_continuation`.) -/
+theorem hist_reads_are_the_forms (T : Tables) (hT : tablesOK T = true) (hC : contOK T = true) (cfg : Cfg)
+    (text : List Byte) :
+    ∀ (n c : Nat) (code : List Obj) (p lc : Nat), c ≤ text.length →
+      readAll T { cfg with one := false } (text.drop c) = .ok code p →
+      (runHist T cfg text { cursor := c, lastChar := lc } (List.replicate n .read)).2 =
+        (code.take n).map HOut.form ++ List.replicate (n - code.length) HOut.eof := by
+  intro n
+  induction n with
+  | zero => intro c code p lc _ _; simp [runHist]
+  | succ n ih =>
+    intro c code p lc hc hok
+    simp only [List.replicate_succ, runHist]
+    cases hr : readOne T cfg (text.drop c) with
+    | ok v =>
+      obtain ⟨o, pos⟩ := v
+      have hpos := readOne_position_partial T hT cfg _ o pos hr
+      have hcont := readOne_continuation T hT hC cfg _ o pos hr
+      rw [hok] at hcont
+      cases hrest : readAll T { cfg with one := false } ((text.drop c).drop pos) with
+      | err e done => rw [hrest] at hcont; cases hcont
+      | ok code' p' =>
+        rw [hrest] at hcont
+        simp only [Result.shift, Result.ok.injEq] at hcont
+        obtain ⟨hcode, _⟩ := hcont
+        subst hcode
+        have hdrop : (text.drop c).drop pos = text.drop (c + pos) := by rw [List.drop_drop]
+        rw [hdrop] at hrest
+        have hlen : c + pos ≤ text.length := by simp at hpos; omega
+        have := ih (c + pos) code' p' 0 hlen hrest
+        simp [hstep, hr, this]
+    | error e =>
+      cases e with
+      | eof =>
+        have hnil := one_eof_all T hT hC cfg _ hr code p hok
+        subst hnil
+        have hrest : readAll T { cfg with one := false } (text.drop text.length) = .ok [] 0 := by
+          rw [List.drop_length]; rfl
+        have := ih text.length [] 0 0 (Nat.le_refl _) hrest
+        simp [hstep, hr, this, List.replicate_succ]
+      | _ =>
+        exfalso
+        unfold readOne at hr
+        split at hr
+        · cases hr
+        · cases hr
+        · rename_i e' code' hall
+          rw [one_err_all T cfg _ _ _ hall] at hok
+          cases hok
+
 -- a non-trivial state satisfying the hypotheses: the cursor inside "ab c", nothing just read
 example : ({ cursor := 1 } : HState).stopped = false ∧ ({ cursor := 1 } : HState).lastChar = 0 ∧
     ([97, 98, 32, 99] : List Byte).drop ({ cursor := 1 } : HState).cursor ≠ [] := by decide
